@@ -240,8 +240,9 @@ def rule_scope_parent(ctx, facts, rule):
         ok = bool(assigns)
         for b, s in assigns:
             src = data_origins(prov._of_rvalue(fn, b, s["rv"], (), 0, set()))
-            ok = ok and bool(src) and all(any(v[0] == "call" and v[1].endswith("SpanId::next_id") for v in x.via) and
-                                          any(v[0] == "call" and v[1].endswith("RawSpan::begin_with") for v in x.via) for x in src)
+            # Some(span.id) read back from the span just built, or the id local it was built with: the fresh id either way
+            ok = ok and bool(src) and all(any(v[0] == "call" and v[1].endswith("SpanId::next_id") for v in x.via) or
+                                          (x.kind == "call" and str(x.key).endswith("SpanId::next_id")) for x in src)
         ctx.check(ok, rule, fn.path, fn.span, "start_span: next_parent_id becomes the new span's id", "", "assignments: %d" % len(assigns),
                   extra="start.next")
 
@@ -634,9 +635,12 @@ def rule_mount(ctx, facts, rule):
 
 def rule_push_child(ctx, facts, rule):
     prov = Prov(facts)
-    fn = ctx.need_fn(facts, "fastrace::span::SpanInner::push_child_spans", rule)
-    if fn is None:
+    # the public entry point, with the private SpanInner::push_child_spans looked through whether it exists or was inlined by hand
+    pub = ctx.need_fn(facts, "fastrace::span::Span::push_child_spans", rule)
+    if pub is None:
         return
+    from .core import inline_calls
+    fn = inline_calls(facts, pub, lambda g: g.path == "fastrace::span::SpanInner::push_child_spans", depth=2)
     sub = sites_star(facts, fn, lambda g, t: callee_is(t, r"GlobalCollect::submit_spans$"))
     if not sub:
         ctx.fail(rule, fn.path, fn.span, "push_child_spans submits the set", "no submit_spans call", extra="submit")
@@ -644,8 +648,12 @@ def rule_push_child(ctx, facts, rule):
     t = fn.term(sub[0])
     setsrc = prov.of_operand(fn, t["args"][1])
     toksrc = prov.of_operand(fn, t["args"][2])
-    shared = any(c[0] is fn and c[3] and has_origin(prov.of_operand(fn, list(c[3].values())[0]), kind="param", key=2, path=())
-                 for c in constructions(facts, "fastrace::collector::SpanSet", "SharedLocalSpans", crates=["fastrace"]))
+    shared = False
+    for bb, blk in enumerate(fn.blocks):
+        for st in blk["stmts"]:
+            if st["k"] == "assign" and st["rv"]["k"] == "agg" and st["rv"].get("adt") == "fastrace::collector::SpanSet" \
+                    and st["rv"].get("variant") == "SharedLocalSpans" and st["rv"]["ops"]:
+                shared = shared or has_origin(prov.of_operand(fn, st["rv"]["ops"][0]), kind="param", key=2)
     tok_ok = any(v[0] == "call" and v[1].endswith("SpanInner::issue_collect_token") for x in toksrc for v in x.via) and \
         has_origin(toksrc, kind="param", key=1)
     ctx.check(shared and tok_ok, rule, fn.path, fn.loc(sub[0]),
@@ -655,8 +663,10 @@ def rule_push_child(ctx, facts, rule):
     def empty(o):
         return any(v[0] == "call" and v[1].endswith("::is_empty") for v in o.via) and suffix_is(o, ".spans")
     e = bool_cond_edges(fn, prov, empty, True)
-    ok, wit = fn.must_pass([0], sub, avoid_edges=e)
-    ctx.check(ok, rule, fn.path, fn.span, "the only early return is for an empty set", "", "a path skips the submit at bb%s" % wit, extra="early")
+    some = discr_cond_edges(fn, prov, r"Option<(&)?fastrace::span::SpanInner>", ["Some"])
+    starts = [(a, d) for a, d, _ in some] if some else [0]
+    ok, wit = fn.must_pass(starts, sub, avoid_edges=e)
+    ctx.check(ok, rule, fn.path, fn.span, "on a recording span the only early return is for an empty set", "", "a path skips the submit at bb%s" % wit, extra="early")
 
 
 def rule_local_converters_agree(ctx, facts, rule):
